@@ -135,7 +135,10 @@ bool exec_ss(Ctx &c, const Op &op) {
         SsObj *o = pick(v, op.a);
         if (!o) { c.skipped = true; return true; }
         char ch = (char)(0x20 + op.b % 0x5F); size_t n = op.c;
-        char e[64]; std::snprintf(e, sizeof e, "%s,n=%zu", mode(o), n / 64); note_sig(c, op, e);
+        // top-up form: fill the stream until exactly op.d - 1 bytes of its (modelled) capacity are free, so that whatever is
+        // appended next - a sign, the digits of a number, one character of a text - straddles the capacity boundary
+        if (op.d) { size_t room = o->cap > o->model.size() ? o->cap - o->model.size() : 0, keep = op.d - 1; n = room >= keep ? room - keep : 0; probe(c, PR_SS_TOPPED_UP); }
+        char e[64]; std::snprintf(e, sizeof e, "%s,n=%zu%s", mode(o), n / 64, op.d ? ",topup" : ""); note_sig(c, op, e);
         do_append(c, op, o, std::string(n, ch), false, false, [&] { if (n == 1 && (op.b & 1)) o->p()->append_char(ch); else o->p()->append_char(ch, n); });
         return true;
     }
